@@ -112,11 +112,17 @@ fn hot_use(r: &mut Prng, h: Hot, hot: &[Hot]) -> Expr {
 }
 
 fn probe(r: &mut Prng) -> Expr {
-    match r.below(5) {
+    match r.below(9) {
+        // the negated infix form `a not in b` (parsed as not (a in b))
+        8 => bin("not in", lit_i(2), Expr::List(vec![lit_i(1), lit_i(2)])),
         0 => bin("+", lit_i(1), bin("*", lit_i(2), lit_i(3))),
         1 => call("min", vec![lit_i(3), lit_i(1)]),
         2 => bin("in", lit_i(2), Expr::List(vec![lit_i(2)])),
         3 => un("-", lit_i(1)),
+        // programs whose very FIRST token is a keyword operator of the built-in tables
+        4 => un("not", lit_b(false)),
+        5 => un("AND", Expr::List(vec![lit_b(true), lit_b(false)])),
+        6 => un("OR", Expr::List(vec![lit_b(false), lit_b(true)])),
         _ => post(lit_i(1), "++"),
     }
 }
